@@ -150,6 +150,36 @@ def checkVD (toks : List String) : String :=
   | some [_, _], some [_, ok, other] => verdict (ok == 0 && other == 0) "wait-succeeded-without-any-notify"
   | _, _ => "bad-op"
 
+/-- `vy`: `Notify` runs concurrently with listener creation, deregistration and `Wait`.  Intervals on a logical
+clock: `ns` = (call, return, value) of every `Notify`, `ws` = (begin of creation, return of `Wait`, value) of every
+`Wait` that returned success.  Success needs a `Notify` for the value after the creation and before the
+deregistration (`C15_notifier`, `C15_notifier_wait_race`), hence a `Notify` interval that overlaps the listener's. -/
+def vyOk (ns ws : List (Nat × Nat × Nat)) : Bool :=
+  ws.all fun w => ns.any fun n => n.2.2 == w.2.2 && decide (n.1 < w.2.1) && decide (w.1 < n.2.1)
+
+def parseIv (pre : String) (t : String) : Option (Nat × Nat × Nat) :=
+  match t.splitOn ":" with
+  | [p, body] =>
+    if p == pre then
+      match body.splitOn "," with
+      | [a, b, v] => do pure (← a.toNat?, ← b.toNat?, ← v.toNat?)
+      | _ => none
+    else none
+  | _ => none
+
+def checkVY (toks : List String) : String :=
+  let (a, b) := splitArrow toks
+  match natsOf a, b with
+  | some [_, _, _], waits :: ok :: other :: rest =>
+    match waits.toNat?, ok.toNat?, other.toNat? with
+    | some _, some ok, some other =>
+      let ns := rest.filterMap (parseIv "n")
+      let ws := rest.filterMap (parseIv "w")
+      if ns.length + ws.length != rest.length || (ws.length != ok && ws.length != 60) then "bad-op"
+      else verdict (vyOk ns ws && other == 0) "wait-succeeded-without-a-notify-in-the-listeners-lifetime"
+    | _, _, _ => "bad-op"
+  | _, _ => "bad-op"
+
 def parseHook (t : String) : Option (Nat × Nat × Option (Nat × Nat) × Nat) :=
   match t.splitOn "," with
   | [f1, s2, "-", "-", c] => do pure (← f1.toNat?, ← s2.toNat?, none, ← c.toNat?)
